@@ -21,6 +21,12 @@ func loadDefault() *World {
 }
 
 func main() {
+	// the repository needs go >= 1.26.5; the default go on PATH is older
+	os.Setenv("PATH", "/opt/veriftools/go1.26.8/bin:"+os.Getenv("PATH"))
+	os.Setenv("GOFLAGS", "-mod=mod")
+	os.Setenv("GOPROXY", "off")
+	os.Setenv("GOSUMDB", "off")
+	os.Setenv("GOTOOLCHAIN", "local")
 	if len(os.Args) < 2 {
 		fmt.Println("usage: govc <dump|fn|check> ...")
 		os.Exit(2)
@@ -72,6 +78,8 @@ func main() {
 		}
 	case "check":
 		os.Exit(checkMain(os.Args[2:]))
+	case "selftest":
+		os.Exit(selftestMain(os.Args[2:]))
 	case "funcs":
 		w := loadDefault()
 		var ks []string
